@@ -118,7 +118,7 @@ PROPS = {
     },
     "C16": {
         "units": [("source", r"get_char_column"), "display", "positions"],
-        "kani": [],
+        "kani": [K("core", "get_char_column_len4", "get_char_column vs characters-since-last-line-break, every valid UTF-8 text and boundary offset (bounded companion of the Verus proof)", bound="valid UTF-8 texts of at most 4 bytes")],
         "decided": ["Node::display_context: the shown text is a contiguous run of WHOLE lines around the match (starts at a line start, ends at a line end), with exactly `before`/`after` extra lines unless the file ends first, and start_line is the line of its first byte", "String::get_char_column(offset) == number of UTF-8 lead bytes between the previous line break and the offset, for every text and offset",
                     "json_print::get_range: byteOffset is the node's byte range and start/end are (line breaks before, characters since the last one) of those offsets -- through Node::start_pos/end_pos/range and Position::column (relative to T-node: tree-sitter's byte offsets and points agree with the text)"],
         "not_decided": ["JSON separators / brackets (write!/serde_json), charCount (chars().count()), MatchMerger, path:line:text printing"],
@@ -135,7 +135,7 @@ PROPS = {
     },
     "C19": {
         "units": [("source", r"get_char_column|position_for_offset"), "traversal", ("positions", r"Position|start_pos|end_pos|range")],
-        "kani": [],
+        "kani": [K("core", "get_char_column_len4", "get_char_column vs characters-since-last-line-break, every valid UTF-8 text and boundary offset (bounded companion of the Verus proof)", bound="valid UTF-8 texts of at most 4 bytes")],
         "decided": ["line/column positions: position_for_offset == (line breaks before, bytes since the last one); get_char_column == characters since the last line break",
                     "Pre (pre-order / dfs, the iterator behind find_all and Visitor): new() starts with exactly preorder(subtree), every next() yields the head of the remaining pre-order and leaves its tail, None only when nothing is left -- every node of the subtree once, in order, never outside (relative to the T-cursor axioms)",
                     "Post (post-order): new() starts with exactly postorder(subtree); every next() yields the head of the remaining post-order and leaves its tail (trace_down / step_up under contract)",
